@@ -46,6 +46,11 @@ m_functional = z3.Function('m_functional', Asg, Int, Bool)
 m_surjective = z3.Function('m_surjective', Asg, Int, Bool)
 m_injective = z3.Function('m_injective', Asg, Int, Bool)
 m_nondecreasing = z3.Function('m_nondecreasing', Asg, Int, Bool)
+mvar = z3.Function('mvar', Int, Int, Int, Int)             # identifier of the pair (u,v) in mapping group g
+gorder = z3.Function('gorder', Int, Int)                   # abstract graph: number of vertices
+gnedges = z3.Function('gnedges', Int, Int)                 # number of edges
+gedge1 = z3.Function('gedge1', Int, Int, Int)              # e-th edge (as enumerated by G.edges()): first endpoint
+gedge2 = z3.Function('gedge2', Int, Int, Int)              # second endpoint
 gdom = z3.Function('gdom', Int, Int)                        # domain size of mapping group g
 grng = z3.Function('grng', Int, Int)                        # range size
 rowlits = z3.Function('rowlits', Int, Int, ISeq)            # the variables f(u,v) of domain element u, v over its allowed images
@@ -506,6 +511,13 @@ def _is_neg(e):
                              (e.decl().kind() == z3.Z3_OP_MUL and e.num_args() == 2 and z3.is_int_value(e.arg(0)) and e.arg(0).as_long() == -1))
 
 
+def _unneg(e):
+    """t for a term of the shape -t, else the term itself"""
+    if _is_neg(e):
+        return e.arg(0) if e.decl().kind() == z3.Z3_OP_UMINUS else e.arg(1)
+    return e
+
+
 def _has_bound(e):
     """does the term mention a variable bound OUTSIDE it?  (binders inside the term, e.g. a lambda array, are fine:
     _collect never descends below a quantifier, so every term it meets is outside all binders)"""
@@ -531,7 +543,7 @@ def instances(exprs, rounds=3):
         new += _on_terms(by_decl)
         new += _sem_on_terms(by_sort['Asg'], by_decl)
         new += _opb_sem(by_sort['Asg'], by_decl, by_sort)
-        new += _lit_neg(by_sort['Asg'], [args[1] for args in by_decl.get('lit_true', []) if not _is_neg(args[1])])
+        new += _lit_neg(by_sort['Asg'], [_unneg(args[1]) for args in by_decl.get('lit_true', [])])
         for name, lean, sorts, f in LEMMAS:
             pools = [by_sort[s.name()] for s in sorts]
             for combo in itertools.product(*pools):
